@@ -104,6 +104,14 @@ def _instances():
 
 
 def prove(tier, seed):
+    from vt.pyvc.termproofs import merge, prove_terms
+
+    a = prove_index(tier, seed)
+    b = prove_terms(["purity", "l1_norm_coherence"], [("purity", "np.linalg.matrix_power(rho, 2)", "np.linalg.matrix_power(rho, 3)"), ("l1_norm_coherence", "- np.trace(rho)", "- 1")], tier, "c14t", replay_clause="term.formula14")
+    return merge(a, b)
+
+
+def prove_index(tier, seed):
     from vt import extract
 
     run = _instances()
@@ -165,4 +173,30 @@ def schmidt_amplitude_matrix(p):
 
 
 schmidt_amplitude_matrix.function = "schmidt_rank"
-EXTRA_CLAUSES = {"schmidt.amplitude_matrix": schmidt_amplitude_matrix}
+
+
+def term_formula14(p):
+    """bounded replay of the term contracts of purity / l1_norm_coherence"""
+    import numpy as np
+
+    from vt.contract import Violation
+
+    rng = np.random.default_rng(p.get("seed", 0))
+    for d in (2, 3, 4):
+        g = rng.standard_normal((d, d)) + 1j * rng.standard_normal((d, d))
+        rho = g @ g.conj().T
+        rho /= np.trace(rho)
+        if p["fn"] == "purity":
+            from toqito.state_props import purity
+
+            got, exp = purity(rho), float(np.real(np.trace(rho @ rho)))
+        else:
+            from toqito.state_props import l1_norm_coherence
+
+            got, exp = l1_norm_coherence(rho), float(np.sum(np.abs(rho)) - np.sum(np.abs(np.diag(rho))))
+        if abs(complex(got) - exp) > 1e-8:
+            raise Violation("%s = %s, definition gives %s" % (p["fn"], got, exp))
+
+
+term_formula14.function = "state_props"
+EXTRA_CLAUSES = {"schmidt.amplitude_matrix": schmidt_amplitude_matrix, "term.formula14": term_formula14}
